@@ -76,6 +76,14 @@ func c06Gen(rt *rapid.T) wProg {
 			}
 			return -1
 		}
+		if i == 0 && p.Cfg.MaxSubs > 0 && gPct(rt, 50) {
+			// the group (channel-enabled or not) lets every authenticated user join: everybody tries,
+			// under the group name, until the limit is reached
+			p.Ops = append(p.Ops, wOp{K: "set", S: 0, T: "g0", A: "defacs", B: "JRWPS"})
+			for hs := 1; hs < len(p.Sess); hs++ {
+				p.Ops = append(p.Ops, wOp{K: "sub", S: hs, T: "g0", A: gPick(rt, []string{"", "JRWPS", "JRWP"}, "joinwant")})
+			}
+		}
 		switch x := gInt(rt, 0, 99, "opk"); {
 		case x < 3:
 			// a grant of exactly "N", the subscription removed, the user comes back
@@ -137,7 +145,11 @@ func c06Gen(rt *rapid.T) wProg {
 		case x < 52:
 			p.Ops = append(p.Ops, wOp{K: "set", S: s, T: topicFor(s), A: "mode", B: gPick(rt, gOwnWant[1:], "want")})
 		case x < 60:
-			p.Ops = append(p.Ops, wOp{K: "leave", S: s, T: topicFor(s), F: gPct(rt, 70)})
+			lt := topicFor(s)
+			if kind == "nch" && lt == "g0" && gPct(rt, 40) {
+				lt = "c0" // the channel spelling of the group, by subscribers and by the owner too
+			}
+			p.Ops = append(p.Ops, wOp{K: "leave", S: s, T: lt, F: gPct(rt, 70)})
 		case x < 68:
 			p.Ops = append(p.Ops, wOp{K: "del", S: s, T: "g0", A: "sub", U: gInt(rt, 0, 3, "target")})
 		case x < 73:
